@@ -187,6 +187,7 @@ class C20(Base):
         if impl_obs == "bad-input":
             return "harness rejected the case"
         kind, f, e, m, s = split_case(case)
+        f0 = f
         d = parts(impl_obs)
         if "ok" not in d:
             return "unexpected observation " + impl_obs[:80]
@@ -198,8 +199,8 @@ class C20(Base):
         if out != exp:
             return "output %s != reference %s" % (d["ok"], hx(exp))
         mv, nv = d.get("m", "na"), d.get("n", "na")
-        sv, rv = d.get("s", "na"), d.get("r", "na")
-        for f in (mv, nv, sv, rv):
+        sv, rv, lv = d.get("s", "na"), d.get("r", "na"), d.get("l", "na")
+        for f in (mv, nv, sv, rv, lv):
             if f.startswith("WRITE-DIFFERS"):
                 return "write_pattern and format_pattern disagree under set_transform: " + f[:80]
         if mv != "na" and mv != d["ok"]:
@@ -209,6 +210,14 @@ class C20(Base):
         if sv != "na" and (sv.startswith("err") or unhx(sv) != out.encode("utf-8") * 3):
             return ("through set_transform, text before / inside the default variant of / after a select on a missing "
                     "argument: %s != direct x 3" % sv)
+        if lv != "na":
+            # a text-only two-line pattern is two text elements, `<input>\n` and `<input>`, each transformed on its own
+            if kind == "plain":
+                e1, e2 = ref_plain(s + "\n", f0, e), ref_plain(s, f0, e)
+            else:
+                e1, e2 = ref_dom(s + "\n", f0, e, m)[0], ref_dom(s, f0, e, m)[0]
+            if lv.startswith("err") or unhx(lv).decode("utf-8") != e1 + e2:
+                return "through set_transform, two-line text pattern: %s != transform(line 1 + LF) + transform(line 2)" % lv
         if rv != "na" and (rv.startswith("err") or unhx(rv) != out.encode("utf-8") * 3):
             return "through set_transform, text through a term reference / direct / message reference: %s != direct x 3" % rv
         return None
